@@ -223,15 +223,15 @@ def subchecks(tier):
                 0.5 if i % 2 else 5.0)
         dh.append(dict(h, cfg=cfg))
     return [
-        Sub("bookkeeping", None, test, 64 if q else 3000, kind="machine",
+        Sub("bookkeeping", None, test, 128 if q else 3000, kind="machine",
             machine=factory, steps=40, shards=8 if q else 16, max_rounds=3, shrink_quick=False,
             generic=dh),
-        Sub("bookkeeping_mild", None, test, 32 if q else 1000,
+        Sub("bookkeeping_mild", None, test, 64 if q else 1000,
             kind="machine", machine=factory_mild, steps=30,
             shards=8 if q else 16, max_rounds=3, shrink_quick=False),
         Sub("get_size", nested, test_get_size, 400 if q else 10000,
             shards=2),
         Sub("over_time_driver", driver_case(), test_driver,
-            40 if q else 1500, shards=8 if q else 16, max_rounds=3,
+            80 if q else 1500, shards=8 if q else 16, max_rounds=3,
             shrink_quick=False),
     ]
